@@ -51,9 +51,52 @@ ORDER = ["BOUND", "SUPPLIED", "UPSTREAM", "DEFAULT"]
 RANK = {c: i for i, c in enumerate(ORDER)}
 
 
+_PROVENANCE: dict = {}  # (ctx, fn) of the function being classified, for `_classify` to follow record fields
+
+
+def _record_field(text: str) -> str | None:
+    """`state.provided` with `state: _RunState` (a NamedTuple / dataclass of the package): the class of what every constructor call
+    `_RunState(...)` of the package passes for that field."""
+    ctx, fn = _PROVENANCE.get("ctx"), _PROVENANCE.get("fn")
+    m = re.fullmatch(r"(\w+)\.(\w+)", text)
+    if ctx is None or fn is None or not m or m.group(1) == "self":
+        return None
+    P = ctx.prog
+    prm = next((a for a in fn.node.args.args + fn.node.args.kwonlyargs + fn.node.args.posonlyargs if a.arg == m.group(1)), None)
+    if prm is None or prm.annotation is None:
+        return None
+    ann = prm.annotation.value if isinstance(prm.annotation, ast.Constant) and isinstance(prm.annotation.value, str) else (dotted(prm.annotation) or norm(prm.annotation))
+    q = P.resolve_name(fn.module, ann, fn)
+    ci = P.classes.get(q) if q else None
+    if ci is None or m.group(2) not in ci.fields:
+        return None
+    order = list(ci.fields)
+    found: set[str | None] = set()
+    for g in P.functions.values():
+        for c in ast.walk(g.node):
+            if isinstance(c, ast.Call) and dotted(c.func).rsplit(".", 1)[-1] == ci.name:
+                a_ = next((k.value for k in c.keywords if k.arg == m.group(2)), None)
+                if a_ is None and order.index(m.group(2)) < len(c.args):
+                    a_ = c.args[order.index(m.group(2))]
+                if a_ is None:
+                    found.add(None)
+                    continue
+                saved = dict(_PROVENANCE)
+                _PROVENANCE.update(ctx=ctx, fn=g)
+                try:
+                    found.add(_classify(norm(a_)) or _classify(norm(Defs(g).resolve(a_))))
+                finally:
+                    _PROVENANCE.clear()
+                    _PROVENANCE.update(saved)
+    return next(iter(found)) if len(found) == 1 else None
+
+
 def _classify(text: str) -> str | None:
     if text in CLASS_OF:
         return CLASS_OF[text]
+    rf = _record_field(text)
+    if rf is not None:
+        return rf
     if text.endswith("._bound"):
         return "BOUND"
     if text.endswith(".output_to_func") or text.endswith(".all_output_names"):
@@ -64,6 +107,8 @@ def _classify(text: str) -> str | None:
 
 
 def _precedence(ctx: Ctx, fn: FuncInfo) -> None:  # noqa: C901
+    _PROVENANCE.clear()
+    _PROVENANCE.update(ctx=ctx, fn=fn)
     loops = [it for it in iterations(fn.node) if it["kind"] == "loop" and norm(it["iter"]).endswith(".parameters")]
     if not loops:
         raise AnalysisError(f"{fn.qualname}: loop over the function's parameters not found")
@@ -80,7 +125,7 @@ def _precedence(ctx: Ctx, fn: FuncInfo) -> None:  # noqa: C901
         cls = None
         if isinstance(v, ast.Subscript) and norm(v.slice) == p:
             cls = _classify(norm(v.value))
-        elif any(isinstance(c, ast.Call) and ((norm(c.func).endswith("._run") and any(k.arg == "output_name" and norm(k.value) == p for k in c.keywords)) or (dotted(c.func) == "_load_from_store" and c.args and norm(c.args[0]) == p)) for c in ast.walk(v)):
+        elif any(isinstance(c, ast.Call) and ((norm(c.func).endswith("._run") and (any(k.arg == "output_name" and norm(k.value) == p for k in c.keywords) or (c.args and norm(c.args[0]) == p))) or (dotted(c.func) == "_load_from_store" and c.args and norm(c.args[0]) == p)) for c in ast.walk(v)):
             cls = "UPSTREAM"
         elif isinstance(v, ast.Subscript) and norm(v.slice) == p:
             cls = f"?{norm(v.value)}"
@@ -454,14 +499,22 @@ def rule_combinations_name_consumed_outputs(ctx: Ctx) -> None:
     ac = P.func(f"{BASE}.Pipeline.arg_combinations")
     funcs = Scope(ctx, ac, wide=True).funcs
     whole, consumed = [], []
+    # a function handed over as `key=` orders the nodes; what it computes from a node never becomes a name of a combination
+    key_funcs = {norm(k.value) for f_ in funcs for c in ast.walk(f_.node) if isinstance(c, ast.Call) for k in c.keywords if k.arg == "key"}
     for f_ in funcs:
         if f_ is ac or f_.is_property or f_.name in ("graph", "output_to_func", "node_mapping"):
             continue  # the graph BUILDER also touches the edge attribute; this rule is about the enumeration
+        if f_.name in key_funcs:
+            continue
+        d_ = Defs(f_)
+        joined = {id(a) for c in ast.walk(f_.node) if isinstance(c, ast.Call) and isinstance(c.func, ast.Attribute) and c.func.attr == "join" and isinstance(c.func.value, ast.Constant) for a in c.args}
         for c in ast.walk(f_.node):
-            if isinstance(c, ast.Call) and dotted(c.func).rsplit(".", 1)[-1] == "at_least_tuple" and c.args and isinstance(c.args[0], ast.Attribute) and c.args[0].attr == "output_name":
+            if isinstance(c, ast.Call) and dotted(c.func).rsplit(".", 1)[-1] == "at_least_tuple" and c.args and isinstance(c.args[0], ast.Attribute) and c.args[0].attr == "output_name" and id(c) not in joined:
                 whole.append((f_, c))
-            if isinstance(c, ast.Subscript) and isinstance(c.slice, ast.Constant) and c.slice.value == "arg" and "edges" in norm(c.value):
-                consumed.append((f_, c))
+            if isinstance(c, ast.Subscript) and isinstance(c.slice, ast.Constant) and c.slice.value == "arg":
+                src = norm(c.value) + " " + norm(d_.resolve(c.value))
+                if "edges" in src or "get_edge_data" in src:
+                    consumed.append((f_, c))
     ctx.tri("7-entry", (whole or consumed or [(ac, ac.node)])[0][0], (whole or consumed or [(ac, ac.node)])[0][1], bool(consumed) and not whole, bool(whole) and not consumed,
             "a producer contributes the names on its consumed edges to a combination",
             f"`{norm(whole[0][1]) if whole else ''}` names a producer by ALL of its outputs: for `a, b = f(x); c = g(a)` arg_combinations('c') lists ('a', 'b'), which pipeline('c', a=.., b=..) refuses (b is unused), "
